@@ -1,7 +1,7 @@
 (* C19/Properties.v — property theorems only. *)
 From Flocq Require Import IEEE754.Bits.
 From Coq Require Import Lia.
-From RM Require Import C08.Proofs C19.Model C19.Proofs.
+From RM Require Import C08.Proofs C19.Model C19.Proofs C19.Pipeline C19.Proofs2.
 Open Scope Z_scope.
 
 (* Every reported flip differs from the examined value in exactly one bit inside the
@@ -62,8 +62,12 @@ Theorem c19_confidence_01 : forall d : details,
 Proof. exact confidence_01_split. Qed.
 Print Assumptions c19_confidence_01.
 
-Theorem c19_confidence_index_ok : forall n, 0 < n ->
-  nth_error NEARBY_REGISTER_c (Z.to_nat (Z.min n (Z.of_nat (length NEARBY_REGISTER_c)) - 1)) <> None.
+(* NEARBY_REGISTER[nearby]: guard and index expression are REGENERATED from confidence() on every run
+   (Gen.C19Check.NEARBY_GUARD / NEARBY_INDEX); for every count that passes the guard the index is inside
+   the table: no usize underflow, no index panic *)
+Theorem c19_confidence_index_ok : forall n, NEARBY_GUARD n = true ->
+  0 <= NEARBY_INDEX (Z.of_nat (length NEARBY_REGISTER_c)) n < Z.of_nat (length NEARBY_REGISTER_c) /\
+  nth_index NEARBY_REGISTER_c (NEARBY_INDEX (Z.of_nat (length NEARBY_REGISTER_c)) n) <> None.
 Proof. exact confidence_index_ok. Qed.
 Print Assumptions c19_confidence_index_ok.
 
@@ -73,6 +77,137 @@ Theorem c19_platform_ranges :
   BR_ALL = (0, 64) /\ BR_CANONICAL = (0, 48) /\ BR_NONCANONICAL = (48, 64).
 Proof. exact platform_ranges. Qed.
 Print Assumptions c19_platform_ranges.
+
+(* ================================================================ round 5 *)
+(* check_for_bitflips as REGENERATED from processor.rs (gates, adjusted-address arms, address pass then
+   register pass; Gen.C19Check.g_check) is the hand-written model on the 4 behaviour classes; an edited
+   gate / arm / bit range changes Gen/C19Check.v and breaks this obligation *)
+Theorem c19_check_src_refines : forall c address adj op ctx iregs rs,
+  check_src c address adj op ctx iregs rs =
+  check_for_bitflips (cpu_class c) address (adj_class adj) op ctx iregs rs.
+Proof. exact check_src_refines. Qed.
+Print Assumptions c19_check_src_refines.
+
+(* platform gating, every Cpu variant and every crash address: nothing unless the pointer width is 64
+   bits, nothing for Arm64 — whatever the adjusted address, context, instruction registers and map *)
+Theorem c19_none_platform : forall c address adj op ctx iregs rs,
+  pointer_width c <> WBits64 \/ c = GArm64 ->
+  check_src c address adj op ctx iregs rs = [].
+Proof. exact none_platform. Qed.
+Print Assumptions c19_none_platform.
+
+(* ... on MINIDUMP_SYSTEM_INFO.processor_architecture (Cpu::from_processor_architecture and the numeric
+   values are regenerated): only AMD64 (9), PPC64 (0x8002) and MIPS64 (0x8004) can ever yield a flip;
+   ARM64 (12), ARM64_OLD (0x8003), every 32-bit and every unknown value never do — for every os, reason,
+   crash address, context, instruction analysis and map *)
+Theorem c19_none_platform_arch : forall analysis arch os r address pc rs,
+  ~ (arch = 9 \/ arch = 32770 \/ arch = 32772) ->
+  pipeline analysis (cpu_of_arch arch) os r address pc rs = [].
+Proof. exact none_platform_arch. Qed.
+Print Assumptions c19_none_platform_arch.
+
+Theorem c19_arch_arm64 : forall arch, cpu_of_arch arch = GArm64 <-> (arch = 12 \/ arch = 32771).
+Proof. exact arch_arm64. Qed.
+Print Assumptions c19_arch_arm64.
+
+(* the instruction analysis is an ARBITRARY function of the exception context (decoder and operand
+   evaluation unconstrained).  Whenever one of the addresses it reports (memory accesses, plus the
+   instruction-pointer update when the accesses are known) is flagged "likely null pointer dereference",
+   NOTHING is reported: neither by the address pass nor by the register pass *)
+Theorem c19_none_nulloffset_both_passes : forall analysis c os r address x rs oa,
+  analysis x = Some oa -> has_null_flag oa ->
+  pipeline analysis c os r address (Some x) rs = [].
+Proof. exact pipeline_none_null. Qed.
+Print Assumptions c19_none_nulloffset_both_passes.
+
+(* what get_exception_details' adjusted address can be: null+offset exactly for a flagged address (first
+   one wins); non-canonical only on amd64, only for a general-protection fault, only an address the
+   instruction accesses inside 0x0000_8000_0000_0000..=0xffff_7fff_ffff_ffff, and only if nothing is flagged *)
+Theorem c19_adjusted_sound : forall c os r address oa,
+  match adjusted_of c os r address oa with
+  | GAdjNullPointerWithOffset off =>
+      exists o l ai, oa = Some o /\ oa_addresses o = Some l /\ In ai l /\ ai_null ai = true /\ ai_addr ai = off
+  | GAdjNonCanonical v =>
+      c = GX86_64 /\ is_gpf os r address = true /\
+      exists o l ai, oa = Some o /\ oa_addresses o = Some l /\ In ai l /\ ai_addr ai = v /\
+                     in_non_canonical v = true /\ (forall ai', In ai' l -> ai_null ai' = false)
+  | GAdjNone => oa = None \/ exists o, oa = Some o /\ ~ has_null_flag o
+  end.
+Proof. exact adjusted_sound. Qed.
+Print Assumptions c19_adjusted_sound.
+
+Theorem c19_non_canonical_range : NON_CANONICAL_LO = 2 ^ 47 /\ NON_CANONICAL_HI = two64 - 2 ^ 47 - 1.
+Proof. exact non_canonical_range. Qed.
+Print Assumptions c19_non_canonical_range.
+
+(* the whole path, exception record + arbitrary instruction analysis -> flips: every flip comes from a
+   64-bit non-ARM64 dump without null+offset recognition, derives from the crash address (or the recovered
+   non-canonical address) or from a register the analysis named and the context can read, differs from it
+   in one bit of the platform's range and is null or in a region (as the lookup sees it) permitting the access *)
+Theorem c19_pipeline_examined : forall analysis c os r address pc rs f,
+  In f (pipeline analysis c os r address pc rs) ->
+  pointer_width c = WBits64 /\ c <> GArm64 /\
+  (forall off, pipeline_adj analysis c os r address pc <> GAdjNullPointerWithOffset off) /\
+  exists a, examined_by analysis c os r address pc f a /\
+            flip_ok a (f_reg f) rs (memop_of_reason r)
+                    (br_lo (pipeline_br analysis c os r address pc)) (br_hi (pipeline_br analysis c os r address pc)) f.
+Proof. exact pipeline_examined. Qed.
+Print Assumptions c19_pipeline_examined.
+
+Theorem c19_pipeline_bit_range : forall analysis c os r address pc,
+  pointer_width c = WBits64 -> c <> GArm64 ->
+  (exists v, pipeline_adj analysis c os r address pc = GAdjNonCanonical v /\ c = GX86_64 /\
+             pipeline_br analysis c os r address pc = Amd64NonCanonical) \/
+  ((forall v, pipeline_adj analysis c os r address pc <> GAdjNonCanonical v) /\
+   pipeline_br analysis c os r address pc = if gcpu_eqb c GX86_64 then Amd64Canonical else AllBits).
+Proof. exact pipeline_br_cases. Qed.
+Print Assumptions c19_pipeline_bit_range.
+
+Theorem c19_pipeline_none_when_accessible : forall analysis c os r address pc rs mi,
+  pipeline_adj analysis c os r address pc = GAdjNone ->
+  lookup_region rs address = Some mi -> possibly_allowed (memop_of_reason r) mi = true ->
+  (forall id v, In (id, v) (pipeline_iregs analysis pc) ->
+                exists m, lookup_region rs v = Some m /\ possibly_allowed (memop_of_reason r) m = true) ->
+  pipeline analysis c os r address pc rs = [].
+Proof. exact pipeline_none_accessible. Qed.
+Print Assumptions c19_pipeline_none_when_accessible.
+
+(* operand evaluation (MemoryAddressInfo::try_from_operand): the address is a u64 and the null flag is set
+   exactly when the operand has a base register that reads 0 *)
+Theorem c19_operand_null_iff_base_zero : forall pc m ai,
+  operand_address pc m = Some ai ->
+  0 <= ai_addr ai < two64 /\
+  (ai_null ai = true <-> exists b, mo_base m = Some b /\ get_register pc b = Some 0).
+Proof. exact operand_address_spec. Qed.
+Print Assumptions c19_operand_null_iff_base_zero.
+
+(* a decoded non-LEA instruction with a memory operand whose base register reads 0 (every operand register
+   readable): recognised as null pointer plus offset — nothing is reported by either pass *)
+Theorem c19_null_base_no_flips : forall di pc c os r address rs m b,
+  di_lea di = false -> di_memsize di = true ->
+  (forall m', In m' (di_ops di) -> operand_address pc m' <> None) ->
+  In m (di_ops di) -> mo_base m = Some b -> get_register pc b = Some 0 ->
+  pipeline (analyze_dinstr di) c os r address (Some pc) rs = [].
+Proof. exact null_base_no_flips. Qed.
+Print Assumptions c19_null_base_no_flips.
+
+(* registers examined by the register pass are base / index registers of the instruction's memory operands *)
+Theorem c19_instr_regs_sound : forall ops id,
+  In id (instr_regs ops) -> exists m, In m ops /\ (mo_base m = Some id \/ mo_index m = Some id).
+Proof. exact instr_regs_sound. Qed.
+Print Assumptions c19_instr_regs_sound.
+
+(* MemoryOperation::from_crash_reason / is_possibly_allowed_for (regenerated tables) are the model's *)
+Theorem c19_memop_tables : forall rg,
+  g_allowed_undetermined = true /\
+  possibly_allowed (mk_memop 0) rg = g_allowed_undetermined /\
+  (forall o, 1 <= o <= 3 ->
+     possibly_allowed (mk_memop o) rg = nth (Z.to_nat (g_allowed_perm o)) [rg_r rg; rg_w rg; rg_x rg] false) /\
+  mk_memop (g_memop_of_access 0) = MRead /\ mk_memop (g_memop_of_access 1) = MWrite /\
+  mk_memop (g_memop_of_access 8) = MExec /\
+  (forall k, k <> 0 -> k <> 1 -> k <> 8 -> mk_memop (g_memop_of_access k) = Undetermined).
+Proof. exact memop_tables. Qed.
+Print Assumptions c19_memop_tables.
 
 (* ---- non-vacuity ---- *)
 Example c19_nonvacuous_flip :
@@ -87,3 +222,33 @@ Qed.
 Example c19_nonvacuous_conf :
   confidence_bits {| d_nc := false; d_null := false; d_low := false; d_nearby := 0; d_poison := false |} = 1048576000.
 Proof. vm_compute. reflexivity. Qed.
+
+(* round 5: a null dereference through rbx (= 0) with a mapped power-of-two address: recognised, nothing
+   reported; the same instruction with rbx = 0x80400 (one bit from the mapped 0x80000): the register pass
+   reports the flip with source register rbx (id 3) *)
+Definition nv_di := {| di_lea := false; di_memsize := true;
+                       di_ops := [{| mo_base := Some 3; mo_index := None; mo_scale := None; mo_disp := Some 8 |}] |}.
+Definition nv_pc (rbx : Z) := {| pc_size := 8; pc_regs := [(0, 5); (3, rbx); (16, 4096)] |}.
+Example c19_nonvacuous_null_base :
+  let rs := [region_of_info 524288 16 4] in
+  has_null_flag (match analyze_dinstr nv_di (nv_pc 0) with Some oa => oa | None => {| oa_accesses := None; oa_ip := None; oa_regs := [] |} end) /\
+  pipeline (analyze_dinstr nv_di) GX86_64 OsLinux ROther 8 (Some (nv_pc 0)) rs = [] /\
+  map (fun f => (f_addr f, f_reg f)) (pipeline (analyze_dinstr nv_di) GX86_64 OsLinux ROther 525320 (Some (nv_pc 525312)) rs)
+    = [(524296, None); (524288, Some 3)].
+Proof.
+  split; [|split; vm_compute; reflexivity].
+  exists [{| ai_addr := 8; ai_null := true |}], {| ai_addr := 8; ai_null := true |}.
+  split; [vm_compute; reflexivity|]. split; [left; reflexivity|reflexivity].
+Qed.
+
+(* a general-protection fault on Windows/amd64 whose instruction accesses a non-canonical address one bit
+   (bit 48) away from a mapped one: the recovered address is examined in bits 48..64 *)
+Example c19_nonvacuous_noncanonical :
+  let rs := [region_of_info 140737488351232 4096 4] in     (* 0x7ffffffff000 *)
+  let pc := nv_pc (140737488351232 + 281474976710656 - 8) in
+  pipeline_adj (analyze_dinstr nv_di) GX86_64 OsWindows (RWinAccessViolation 0) (two64 - 1) (Some pc)
+    = GAdjNonCanonical (140737488351232 + 281474976710656) /\
+  map (fun f => (f_addr f, f_reg f, d_nc (f_det f)))
+      (pipeline (analyze_dinstr nv_di) GX86_64 OsWindows (RWinAccessViolation 0) (two64 - 1) (Some pc) rs)
+    = [(140737488351232, None, true)].
+Proof. split; vm_compute; reflexivity. Qed.
